@@ -41,13 +41,15 @@ type Reply struct {
 	Front string
 	Uid   string
 	H     int64
+	Ctr   int64 // "sent": the issuing instance's issue counter when the response was issued
 }
 
 // PushBody is the payload of harness pushes.
 type PushBody struct {
 	Svc string
 	T   int64 // tag of the request during which it was issued
-	Seq int64 // issue counter
+	Seq int64 // position within that request's script
+	Ctr int64 // the issuing instance's issue counter (strictly increasing per instance)
 	Pad string
 }
 
@@ -153,20 +155,25 @@ func (h *H) Block(ctx *impls.HandlerContext, a *Arg, cb apientry.HandlerCBFunc) 
 	apientry.CheckInvokeCBFunc(cb, nil, h.reply(ctx, s, "echo", a))
 }
 
-// Send issues N1 pushes, the response, then N2 pushes towards the calling client, each
-// push carrying the issuer, the request tag and an issue counter.
+// Send issues N1 pushes, the response, then N2 pushes towards the calling client.  Every item
+// (pushes and the response) carries the issuing instance, the request tag, its position in the
+// script and the instance's issue counter, taken at the moment the item is issued.
 func (h *H) Send(ctx *impls.HandlerContext, a *Arg, cb apientry.HandlerCBFunc) {
 	s := h.n.logInvocation(ctx, "send", a.T)
 	r := h.reply(ctx, s, "sent", a)
 	pad := strings.Repeat("x", a.Pad)
+	ctr := &h.n.ctr[InstOf(s.name)]
 	seq := a.Seq0
 	push := func(k int) {
 		for i := 0; i < k; i++ {
-			app.PushMessageById(s.NodeService, r.Front, r.NetId, "onSeq", &PushBody{Svc: s.name, T: a.T, Seq: seq, Pad: pad})
+			*ctr++
+			app.PushMessageById(s.NodeService, r.Front, r.NetId, "onSeq", &PushBody{Svc: s.name, T: a.T, Seq: seq, Ctr: *ctr, Pad: pad})
 			seq++
 		}
 	}
 	push(a.N1)
+	*ctr++
+	r.Ctr = *ctr
 	apientry.CheckInvokeCBFunc(cb, nil, r)
 	push(a.N2)
 }
